@@ -113,6 +113,12 @@ class HarnessError(Exception):
     """Something is wrong with the machinery itself: exit status 2, never a verdict."""
 
 
+class BrokenTie(Exception):
+    """Raised by a harness guard when the run can no longer show the property for a reason that lies in the implementation
+    under test (e.g. "more than 15 % of the reference bodies fail"): the runner records it as a broken obligation and goes on
+    to search for a failing input - it is never exit status 2."""
+
+
 # --------------------------------------------------------------------------- prng
 
 class Prng(random.Random):
